@@ -832,6 +832,16 @@ class Table(Vector):
 		for col_idx in target_indices:
 			_ALIAS_TRACKER.check_writable(self._underlying[col_idx], id(self._underlying[col_idx]._underlying))
 
+		# The key and the value may be (made of) live columns of this very table - t[t.flag, :] = 0,
+		# t[:, ['a', 'b']] = [t.b, t.a] - and the columns are written one after the other: snapshot
+		# them, so that what is written first cannot change what is read next.
+		if isinstance(row_spec, Vector):
+			row_spec = row_spec.copy()
+		if isinstance(value, Vector):
+			value = value.copy()
+		elif isinstance(value, (list, tuple)):
+			value = [v.copy() if isinstance(v, Vector) else v for v in value]
+
 		# --- 3. Handle Assignment ---
 		
 		# CASE A: Scalar Assignment (Broadcast)
